@@ -729,6 +729,81 @@ def r07k(ctx, run):
               f.file, f.ln, "only %d array -> slice pairs could be evaluated" % n)
 
 
+def r07l(ctx, run):
+    """what a nested comparison is handed: an aggregate component is compared through its ADDRESS, a scalar component through its LOADED value (the
+    struct-member, array-element and payload arms all ask `is_aggregate()`).  compile_complex_compare is evaluated one level deep for every kind of
+    component behind a pointer, in a struct and in an optional; the operands of the nested comparison must have the representation of the component's
+    type - a pointer to a struct compared by loading eight bytes of the struct and using them as its address crashes the built program."""
+    from absint import Obj, Term, Variant, Panic, CannotEstablish
+    V = Variant
+    CG = "codegen/src/compiler/functions.rs"
+    fc = {n: ctx.syn.fn("FunctionCompiler::" + n, CG) for n in ("compile_complex_compare", "logical", "logical_and", "logical_or")}
+    cc = fc["compile_complex_compare"]
+    QI = make_ty_interp(ctx, fc)
+    i32 = V("Ty::IInt", {"0": 32})
+
+    def mem(n, t):
+        return Obj("MemberTy", name=Term(n), ty=t)
+    S = V("Ty::ConcreteStruct", {"uid": 7, "members": [mem("a", i32), mem("b", i32)]})
+    comps = {"i32": (i32, False), "str": (V("Ty::String"), False), "struct": (S, True), "[2]i32": (V("Ty::ConcreteArray", {"size": 2, "sub_ty": i32}), True),
+             "[]i32": (V("Ty::Slice", {"sub_ty": i32}), True), "?i32": (V("Ty::Optional", {"sub_ty": i32}), True), "^i32": (V("Ty::Pointer", {"mutable": False, "sub_ty": i32}), False)}
+    outers = {"^%s": lambda k: V("Ty::Pointer", {"mutable": False, "sub_ty": k}),
+              "struct{x: i32, y: %s}": lambda k: V("Ty::ConcreteStruct", {"uid": 8, "members": [mem("x", i32), mem("y", k)]})}
+    n = 0
+    for on, mk in outers.items():
+        for kn, (K, aggr) in comps.items():
+            T = mk(K)
+            name = on % kn
+            log = []
+
+            class RI(QI):
+                depth = 0
+
+                def default_method(self, recv, m, args, e):
+                    if isinstance(recv, Obj) and recv.name == "self" and m in ("compile_complex_compare", "compile_array_compare", "compile_enum_compare") and RI.depth >= 1:
+                        log.append((m, args))
+                        return Term("cmp")
+                    if isinstance(recv, Obj) and recv.name == "self" and m == "compile_num_binary":
+                        log.append((m, args))
+                        return Term("cmp")
+                    if m == "load" and len(args) == 4:
+                        return Term("load", args[2], args[3])
+                    if m in ("iadd_imm", "iadd") and len(args) == 2:
+                        return Term("addr+", args[0], args[1])
+                    if isinstance(recv, Term) and recv.op == "struct_layout" and m == "offsets":
+                        return [8 * i_ for i_ in range(8)]
+                    return super().default_method(recv, m, args, e)
+            it = RI(funcs={"BlockArg::Value": lambda i, a: Term("arg"), "MemFlags::trusted": lambda i, a: Term("trusted"), "Some": lambda i, a: a[0]},
+                    macros={"format": lambda i, e, env: "fmt", "assert": lambda i, e, env: None, "assert_eq": lambda i, e, env: None})
+            it.methods["unwrap"] = lambda i, r, a: r
+            selfo = Obj("self", builder=Term("builder"), func_writer=Term("fw"), ptr_ty=Term("ptr_ty"))
+            RI.depth = 1
+            try:
+                it.run_fn(cc, {"self": selfo, cc.param_names()[1]: Term("LHS"), cc.param_names()[2]: Term("RHS"), cc.param_names()[3]: T, cc.param_names()[4]: V("hir::BinaryOp::Eq")})
+            except Panic as p_:
+                continue    # an unbuildable component is R07.i's finding
+            except CannotEstablish as c:
+                run.finding(cc.qual, "operand-repr:" + name, cc.file, cc.ln, "cannot establish what the nested comparison of %s is handed: %s" % (name, getattr(c, "what", c)))
+                continue
+            # the nested comparison of the component K
+            nested = [(m, a) for m, a in log if any(isinstance(x, Variant) and x == K for x in a)]
+            if not nested:
+                run.finding(cc.qual, "operand-repr:" + name, cc.file, cc.ln, "the comparison of %s does not compare its %s component (calls: %s)" % (name, kn, [m for m, _ in log]))
+                continue
+            n += 1
+            m, a = nested[-1]
+            ops = [x for x in a if isinstance(x, Term)][:2]
+            loaded = [isinstance(x, Term) and x.op == "load" for x in ops]
+            good = (not any(loaded)) if aggr else all(loaded)
+            run.check(good, cc.site(), "%s: the %s component is compared through %s" % (name, kn, "its address" if not any(loaded) else "its loaded value"), cc.qual, "operand-repr:" + name, cc.file, cc.ln,
+                      "comparing two values of type %s hands the nested comparison of the %s component %s: %s" % (
+                          name, kn, " / ".join(repr(x)[:40] for x in ops),
+                          "an aggregate is represented by its address - here some of its BYTES are loaded and then used as that address (the built program reads from a wild pointer)" if aggr
+                          else "a scalar component must be loaded before it is compared"))
+    if n < 10:
+        raise LookupError("nested comparisons with a recorded operand: %d" % n)
+
+
 def rules(ctx):
     return [
         Rule("R07.a", "the error gate (both diagnostic sources, exit 1) and the unsafe assert dominate every code-generation call; comptime evaluation is guarded", 12, r07a),
@@ -736,6 +811,7 @@ def rules(ctx):
         Rule("R07.d", "operator/type combinations the checker accepts are ones the code generator has an arm for (belief vs use, across crates)", 80, r07d),
         Rule("R07.e", "every path that finishes a global's body passes the GlobalNotConst test (must-pass-through on MIR)", 1, r07e),
         Rule("R07.h", "every cast Ty::can_cast_to accepts is one cast_into_memory can build (both evaluated from source over 31 x 30 type pairs)", 100, r07h),
+        Rule("R07.l", "a nested comparison is handed the address of an aggregate component and the loaded value of a scalar one (behind a pointer, in a struct)", 10, r07l),
         Rule("R07.k", "array -> slice is accepted only when the element representation is kept (the slice aliases the array's memory)", 1, r07k),
         Rule("R07.i", "== / != on aggregates: every component type the comparison recurses into has a code-generator arm (checker and generator evaluated one level deep)", 60, r07i),
         Rule("R07.j", "nested bodies (lambda, comptime) set the enclosing params, scopes and labels aside: a jump to an outer label is reported, not compiled (shared with C05 R05.d)", 4, r07j),
